@@ -421,10 +421,17 @@ func (g *SymbolGraph) FindByKind(kinds ...common.SymKind) []*SymbolNode {
 		}
 	}
 
-	// Map iteration order is randomized; Order by ID so consumers (e.g. reduction, which hands out
-	// import serials in iteration order) yield the same output on every run
+	// Map iteration order is randomized; Order by name, file and position so consumers (e.g. reduction, which
+	// hands out import serials in iteration order) yield the same output on every run.
+	// Position is a FileSet offset - comparable within one file only (its base depends on load order),
+	// so it must come after the file path.
 	slices.SortFunc(results, func(a, b *SymbolNode) int {
-		return strings.Compare(a.Id.BaseId(), b.Id.BaseId())
+		return cmp.Or(
+			strings.Compare(a.Id.Name, b.Id.Name),
+			strings.Compare(a.Id.FilePath, b.Id.FilePath),
+			cmp.Compare(a.Id.Position, b.Id.Position),
+			strings.Compare(a.Id.BaseId(), b.Id.BaseId()),
+		)
 	})
 
 	return results
